@@ -17,9 +17,10 @@ absent / twice, odd and even foreign chunks, WAVE with an upper-case `ID3 ` chun
 layouts only mutagen's reader accepts (root size odd with a trailing pad byte, root size short of the file, truncated last
 chunk, blank chunk id ending the walk, container child with data size < 4): mutagen's tag classes _IFFID3 / _WaveID3 /
 _DSDIFFID3 save and delete on them and the model must produce the same bytes / the same exception class."""
-import io, struct
+import io, re, struct
 import mutagen
-from common import hx, unhx, zs, zp
+import common
+from common import hx, unhx, zs, zp, coq_bytes
 
 KINDS = {"AIFF", "WAVE", "DSDIFF"}
 LIMIT = 300_000
@@ -185,6 +186,54 @@ def check_step(ctx, kind, st):
         check_delete(ctx, fam, "delete" if op == "delete" else "module delete", st.before, st.after, exc_name(st.exc), data)
 
 
+
+# ---------------------------------------------------------------------------------- vm_compute cross-check
+VM_BATCH = 12
+EXC_COQ = {"EStruct": "struct.error", "EValue": "ValueError", "EMutagen": "MutagenError", "EOutOfFuel": "FUEL"}
+COQ_CB = {"default": "cb_default", "keep": "cb_keep"}
+COQ_FL = {"aiff": "aiff", "wave": "wave", "dff": "dsdiff"}
+
+
+def coq_cb(mode):
+    return COQ_CB.get(mode) or "(cb_const %d)" % zp(mode[1:])
+
+
+def vm_note(ctx, term, reply):
+    """remember a small case (Gallina term, binary's reply); every VM_BATCH cases (first batch only per run) the same
+    terms are evaluated by vm_compute inside Coq and must agree with the extracted binary"""
+    st = ctx.notes.setdefault("iff_vm", {"cases": [], "done": False})
+    if st["done"]:
+        return
+    st["cases"].append((term, reply))
+    if len(st["cases"]) >= VM_BATCH:
+        st["done"] = True
+        vm_crosscheck(ctx, st["cases"])
+        st["cases"] = []
+
+
+def vm_crosscheck(ctx, cases):
+    pre = ("From Coq Require Import ZArith List. Import ListNotations. "
+           "Require Import Base.Py Model.Fam_carrier Model.Fam_iff. Open Scope Z_scope.")
+    res, log = common.vm_shard("fam_iff", pre, [c[0] for c in cases])
+    if res is None or len(res) != len(cases):
+        ctx.disagree("fam.iff.vm_shard", "vm_compute shard failed to run", {"log": str(log)[-300:]})
+        return
+    for (term, reply), r in zip(cases, res):
+        ctx.vm_cases += 1
+        r = r.replace("%Z", "")
+        m = re.match(r"Ok \[(.*)\]$", r)
+        if m:
+            got = "ok " + hx(bytes(int(x) for x in m.group(1).split(";") if x.strip()))
+        elif r.startswith("Raise "):
+            got = "raise " + EXC_COQ.get(r[6:].strip(), r[6:].strip())
+        else:
+            got = "unparsed " + r[:60]
+        want = " ".join(reply.split(" ")[:2])
+        if got != want:
+            ctx.disagree("fam.iff.vm_shard", "extracted binary and vm_compute differ", {"term": term[:300], "binary": want[:120], "vm": got[:120]})
+            return
+
+
 # ---------------------------------------------------------------------------------- synthetic layouts
 def tagclass(fam):
     if fam == "aiff":
@@ -332,6 +381,8 @@ def synthetic(ctx, kind, data):
                 d2["mode"] = mode
                 reply = ctx.model.call("iff_save_cb", fam, hx(cur), hx(fd), zs(4), MODES[mode])
                 ctx.corr_cases += 1
+                if len(cur) + len(fd) < 900:
+                    vm_note(ctx, "iff_save_cb %s %s %s 4 %s" % (COQ_FL[fam], coq_bytes(cur), coq_bytes(fd), coq_cb(MODES[mode])), reply)
                 parts = compare_bytes(ctx, "layout save", reply, after, exc, d2)
                 if parts and log and len(parts) >= 4 and parts[2] != "-":
                     if (zp(parts[2]), zp(parts[3])) != tuple(log[0][:2]):
@@ -343,7 +394,10 @@ def synthetic(ctx, kind, data):
             elif opn == "delete":
                 after, exc = run_impl(lambda b: o.delete(b), cur)
                 ctx.corr_cases += 1
-                compare_bytes(ctx, "layout delete", ctx.model.call("iff_delete", fam, hx(cur)), after, exc, d2)
+                reply = ctx.model.call("iff_delete", fam, hx(cur))
+                if len(cur) < 900:
+                    vm_note(ctx, "iff_delete %s %s" % (COQ_FL[fam], coq_bytes(cur)), reply)
+                compare_bytes(ctx, "layout delete", reply, after, exc, d2)
                 if exc is None and not lenient:
                     check_after(ctx, fam, "layout delete", cur, after, None, d2)
             else:
